@@ -261,8 +261,11 @@ def run_case(ctx, prog, start, steps, tmax, params, case, analytic=None,
     ctx.count("rhs_evaluations", CNT.rhs)
     ctx.seen_max("max_rhs_evaluations_per_run", CNT.rhs)
     ctx.seen_max("max_integration_cycles", CNT.cycles)
-    if CNT.cycles > 5:
-        ctx.violation("more-than-5-integration-cycles",
+    if CNT.cycles > 40:
+        # termination is decided on logical steps: how often the integrator
+        # may be restarted is the implementation's business (the pinned tree
+        # stops after 5), several dozen restarts are no bounded progress
+        ctx.violation("no-bounded-progress-integration-restarts",
                       f"{CNT.cycles} RK45 integrations in one run_ode call",
                       case)
     if CNT.cycles >= 2:
